@@ -85,6 +85,13 @@ func readProgress(path string) (idx, done uint64) {
 func RunWorker(c *Check, tier string, shard, nshards int, resume uint64, progPath string) {
 	debug.SetMaxStack(64 << 20)
 	debug.SetGCPercent(200)
+	if !raceBuild {
+		// A case that allocates without bound (a layout chain that doubles its content on every
+		// lap) must end as a crash of this worker - which the driver attributes to the case - and
+		// not exhaust the machine. The race detector needs its address space: no cap there.
+		lim := syscall.Rlimit{Cur: 6 << 30, Max: 6 << 30}
+		_ = syscall.Setrlimit(syscall.RLIMIT_AS, &lim)
+	}
 	out := bufio.NewWriterSize(os.Stdout, 1<<16)
 	enc := json.NewEncoder(out)
 	send := func(m workerMsg) { enc.Encode(m); out.Flush() }
